@@ -757,7 +757,7 @@ def sweep(kinds=None, cls=None, fixtures_only=False):
             for ctx, data in rtf_documents(units):
                 docs.append((f"crafted:{label} ({ctx}).rtf", data))
         for f_, label, data_ in spine_variants():
-            docs.append((f_, data_))
+            docs.append((f"crafted:{label} ({os.path.basename(f_)}).epub", data_))
         for name_, data_, _what in collision_documents():
             docs.append((name_, data_))
         for rel, pred, _key in DAMAGED:
@@ -797,14 +797,17 @@ def collision_documents():
         import re
         onames = [x.name for x in dataclasses.fields(dt.OpenDocumentMetadata)]
         extra = "".join(f'<meta:user-defined meta:name="{n}">doc-says-{n}</meta:user-defined>' for n in onames)
-        src = zipfile.ZipFile(f)
         buf = io.BytesIO()
-        with zipfile.ZipFile(buf, "w", zipfile.ZIP_DEFLATED) as z:
-            for zi in src.infolist():
-                data = src.read(zi.filename)
-                if zi.filename == "meta.xml":
-                    data = re.sub(rb"(<office:meta[^>]*>)", lambda m: m.group(1) + extra.encode(), data, count=1)
-                z.writestr(zi, data)
+        try:
+            src = zipfile.ZipFile(f)
+            with zipfile.ZipFile(buf, "w", zipfile.ZIP_DEFLATED) as z:
+                for zi in src.infolist():
+                    data = src.read(zi.filename)
+                    if zi.filename == "meta.xml":
+                        data = re.sub(rb"(<office:meta[^>]*>)", lambda m: m.group(1) + extra.encode(), data, count=1)
+                    z.writestr(zi, data)
+        except Exception:  # noqa
+            return
         yield "collision.odt", buf.getvalue(), "odt meta:user-defined named after every field of OpenDocumentMetadata"
 
 
@@ -850,9 +853,12 @@ def spine_variants():
                     "first itemref repeated": text.replace(refs[0], refs[0] + refs[0], 1)}
         for label, new in variants.items():
             buf = io.BytesIO()
-            with zipfile.ZipFile(buf, "w", zipfile.ZIP_DEFLATED) as z:
-                for zi in src.infolist():
-                    z.writestr(zi, new.encode("utf-8") if zi.filename == opf else src.read(zi.filename))
+            try:
+                with zipfile.ZipFile(buf, "w", zipfile.ZIP_DEFLATED) as z:
+                    for zi in src.infolist():
+                        z.writestr(zi, new.encode("utf-8") if zi.filename == opf else src.read(zi.filename))
+            except Exception:  # noqa -- a fixture with a damaged member cannot be re-packed: no variant of it
+                break
             yield f, label, buf.getvalue()
 
 
